@@ -975,6 +975,12 @@ func paramTypes(ct *Contract, sig *types.Signature, invoke bool, callee *ssa.Fun
 			}
 		}
 	}
+	rn := resultNames(ct, sig)
+	for i, n := range rn {
+		if _, taken := m[n]; !taken {
+			m[n] = sig.Results().At(i).Type()
+		}
+	}
 	return m
 }
 
@@ -1045,6 +1051,11 @@ func (fr *Frame) modComps(m string, pt map[string]types.Type) []modEntry {
 	}
 	if strings.HasPrefix(m, "bigval(") {
 		return []modEntry{{bigvalComp, false}}
+	}
+	if strings.HasPrefix(m, "heap(") {
+		k := strings.TrimSuffix(strings.TrimPrefix(m, "heap("), ")")
+		fx.regComp(k, "(Array Int Int)")
+		return []modEntry{{k, false}}
 	}
 	if strings.HasPrefix(m, "newmap(") {
 		t := fr.staticType(strings.TrimSuffix(strings.TrimPrefix(m, "newmap("), ")"), pt)
